@@ -130,6 +130,9 @@ def pick(chars):
     return chars[0]
 
 
+ANYCHARS = ''.join(chr(c_) for c_ in range(33, 127))
+
+
 def grammar(seg):
     """per-position alphabets of a symbolic text field"""
     w = seg.width if seg.width is not None else 3
@@ -137,6 +140,8 @@ def grammar(seg):
         return []
     if seg.cls == 'alpha':
         return [UPPER] + [LOWER] * (w - 1)
+    if seg.cls == 'any':
+        return [ANYCHARS] * w               # free text without blanks (a token of a value, a note)
     return [LETTERS] + [NAMECHARS] * (w - 1)
 
 
